@@ -95,6 +95,11 @@ func (m *LinearlyInterpolatedMapping) approximateLog(x float64) float64 {
 func (m *LinearlyInterpolatedMapping) approximateInverseLog(x float64) float64 {
 	exponent := math.Floor(x)
 	significandPlusOne := x - exponent + 1
+	if significandPlusOne >= 2 {
+		// x is less than half an ulp below an integer: the sum above rounded up to 2
+		exponent++
+		significandPlusOne = 1
+	}
 	return buildFloat64(int(exponent), significandPlusOne)
 }
 
